@@ -183,7 +183,7 @@ func generate(r *simkit.Rand, prop string) *simkit.Plan {
 		if e == 1 && r.Chance(0.5) {
 			nOps = r.Range(0, 2)
 		}
-		for i := 0; i < nOps; i++ {
+		genOp := func() simkit.Step {
 			op := opNames[r.Weighted(opW)]
 			st := simkit.Step{Op: op}
 			switch op {
@@ -206,7 +206,10 @@ func generate(r *simkit.Rand, prop string) *simkit.Plan {
 			case "restake":
 				st.I = []int64{int64(r.Intn(16))}
 			}
-			p.Steps = append(p.Steps, st)
+			return st
+		}
+		for i := 0; i < nOps; i++ {
+			p.Steps = append(p.Steps, genOp())
 		}
 		rnd := r.Bytes(r.Range(4, 32))
 		rands = append(rands, rnd)
@@ -243,7 +246,27 @@ func generate(r *simkit.Rand, prop string) *simkit.Plan {
 				p.Steps = append(p.Steps, st)
 				candSamples = append(candSamples, st)
 			}
-			p.Steps = append(p.Steps, simkit.Step{Op: "candidate", B: []simkit.HexBytes{r.Bytes(r.Range(4, 32))}})
+			// the competing block: another parent (new PrevRandSeed), another validator selection from the same
+			// previous-epoch state (same PrevRandSeed), or both
+			cst := simkit.Step{Op: "candidate"}
+			variant := r.Intn(3)
+			if prop == "C13" && r.Chance(0.4) {
+				variant = 1
+			}
+			if variant != 1 {
+				cst.B = []simkit.HexBytes{r.Bytes(r.Range(4, 32))}
+			}
+			if variant != 0 {
+				cst.I = []int64{1}
+				for i := r.Range(1, 3); i > 0; i-- {
+					st := genOp()
+					if r.Chance(0.6) { // make sure the selection really differs: one more listed validator unstakes
+						st = simkit.Step{Op: "unstake", I: []int64{int64(r.Intn(2)), int64(r.Intn(shards + 1)), int64(r.Intn(16))}}
+					}
+					p.Steps = append(p.Steps, st)
+				}
+			}
+			p.Steps = append(p.Steps, cst)
 			if r.Chance(0.15) { // a third candidate
 				p.Steps = append(p.Steps, simkit.Step{Op: "prepare", T: r.Intn(nodes), I: []int64{0}})
 				p.Steps = append(p.Steps, candSamples[0])
